@@ -14,7 +14,8 @@
 (***************************************************************************)
 EXTENDS JoseDefs, TLC, Json
 
-CONSTANTS MaxOps, Dev, Kty
+CONSTANTS MaxOps, Dev, Kty,
+          ExportEvery      \* 1: every complete behaviour is exported; n: every n-th distinct state (quick tier replays a sample anyway)
 DevNames == {"PublicExportLeaks", "PrivateOnPublicSilent", "KidOverwritten", "ThumbUsesOptional", "PemKeepsKid", "SetExportIgnoresFlag",
              "PublicKeySkipsFilter"}
 ASSUME Dev \subseteq DevNames
@@ -89,5 +90,5 @@ KidStable == \A i \in 1..Len(hist) :
    /\ (h.before.kid # "none" /\ (h.op[1] # "transfer" \/ h.op[2] = "jwk") /\ h.out.ok) => h.obj.kid = h.before.kid
    /\ (h.op[1] \in {"ensure_kid", "keyset_public"} /\ h.before.kid = "none") => h.obj.kid = "thumb"
    /\ (h.op[1] = "transfer" /\ h.op[2] # "jwk" /\ h.out.ok) => h.obj.kid = "none"
-Export == Len(hist) = MaxOps => PrintT("CASE " \o ToJson([kty |-> Kty, hist |-> hist]))
+Export == (Len(hist) = MaxOps /\ (ExportEvery = 1 \/ TLCGet("distinct") % ExportEvery = 0)) => PrintT("CASE " \o ToJson([kty |-> Kty, hist |-> hist]))
 =============================================================================
